@@ -117,7 +117,14 @@ def run_c15(ctx):
                 # through a JSON file
                 if k in (ks[0], ks[len(ks) // 2], ks[-1]):
                     n_eval += 1
+                    json_resume.persist_diff = None
                     bad = json_resume(spec, p_full, k, F)
+                    cell = ctx.matrix.setdefault("persist:load(save(paused))", dict(executions=0, disagreements=0))
+                    cell["executions"] += 1
+                    if json_resume.persist_diff:
+                        cell["disagreements"] += 1
+                        ctx.footprint_disagreements.append(dict(case=dict(case, pause=k, via="json"), phase="persist",
+                                                                fields=json_resume.persist_diff, detail="the project read back from JSON differs from the paused one"))
                     if bad:
                         ctx.violations.append(dict(property="C15", what="pausing at step %d, saving to JSON, loading and resuming: %s" % (k, bad),
                                                    case=dict(case, pause=k, via="json")))
@@ -139,6 +146,12 @@ def json_resume(spec, p_full, k, F):
             project.write_simple_json(path)
             q = BaseProject()
             q.read_simple_json(path)
+        # the JSON clause rests on "load(save(x)) = x" (C16): check that tie here as well
+        m0, m1 = extract_model(project), extract_model(q)
+        if m0 != m1:
+            json_resume.persist_diff = [k_ for k_ in m0 if m0[k_] != m1[k_]]
+        elif codec.diff_states(snapshot(project, Index(project)), snapshot(q, Index(q))):
+            json_resume.persist_diff = codec.diff_states(snapshot(project, Index(project)), snapshot(q, Index(q)))
         real_simulate(q, dict(p_full, initState=False, initLog=False))
         st = snapshot(q, Index(q))
     except Exception as e:
@@ -260,11 +273,17 @@ def run_c18(ctx):
             rng, spec, params = case_of(ctx.seed, i)
             p = dict(params, maxTime=40, initState=True, initLog=True)
             ops = [dict(op="sim", params=p)]
+            # index lists are drawn relative to the run length and to the recorded absence steps:
+            # steps inside, exactly at, just past and far past the end, and repeats of present ones
+            probe = run_history(spec, [dict(op="sim", params=p)], None)
+            T = probe["states"][0]["time"] if probe["states"] else 5
+            present = [a for a in p["absence"]] or [0]
+            pool = [0, 0, 1, 2, 3, max(T - 1, 0), T, T, T + 1, T + 1, T + 2, 30] + present + present
             for _ in range(rng.randint(1, 4)):
                 if rng.random() < 0.4:
                     ops.append(dict(op="rm"))
                 else:
-                    ops.append(dict(op="ins", steps=[rng.choice([0, 0, 1, 2, 3, 5, 8, 30]) for _ in range(rng.randint(1, 3))]))
+                    ops.append(dict(op="ins", steps=[rng.choice(pool) for _ in range(rng.randint(1, 4))]))
             case = dict(stream="c18", seed=ctx.seed, index=i, spec=spec, ops=ops)
             n_eval += 1
             h = run_history(spec, ops, drv)
